@@ -24,6 +24,20 @@ Workload (all seeded from the case descriptor)
     (biased towards residues inside helices and sheets), chains split, water / ion / ligand / cap residues inserted
     between protein residues and between chains.
 
+Widening round (cases with id >= 10**6, `_wide_cases`; the stream above is unchanged).  Input classes added:
+64-257 frame trajectories (designed patterns: 12 distinct patterns shown in random order), optionally blown up by a
+factor 3 in all but the last 1-3 frames; whole multi-chain crystal structures (4ZUO 1703, 1ncw 1023, thorough also 3nch
+2463 residues) in the quick tier; topologies without any protein residue (water box, RNA, ligand) and capped peptides
+in explicit water; 4-12 extra chain starts; residue numbers all equal / scrambled / repeated in threes (what insertion
+codes leave behind); residues renamed to non-standard names and to / from PRO; the atoms of a residue listed in another
+order; a unit cell on the trajectory (the assignment takes no periodic images: same model); `simplified` given
+positionally, as numpy bool and as int; monitor default-is-simplified (compute_dssp(t) == simplified=True); monitor
+history.in-place-edit: after all calls the SAME Topology object is edited in place (residue <-> PRO, backbone atom
+renamed, atom renamed to a backbone name, insert_atom) and compute_dssp on it must equal compute_dssp on a freshly
+built equal topology (vlib.gen.common.rebuild_topology).  Not added: residues whose atoms are not contiguous in index
+(outside mdtraj's data model, see C13), two atoms with the same backbone name in one residue (which one counts is
+not documented).
+
 Monitors
   rules.code            per frame and complete residue: reported full code == model code.  Three-valued: the model is
                         evaluated under every reading the publication leaves open and a residue is decided only where
@@ -89,7 +103,7 @@ BUDGET = {"quick": 60, "thorough": 900}
 ENV = {"OMP_WAIT_POLICY": "PASSIVE"}
 GROUPS = {"quick": [dict(name="asan", flavour="asan", workers=1)],
           "thorough": [dict(name="asan", flavour="asan", workers=1)]}
-FLOORS = {"quick": {"rules.code": 15000, "rules.simplified-code": 15000, "frame-context": 350, "junk-differential": 350,
+FLOORS = {"quick": {"history.in-place-edit": 500, "default-is-simplified": 250, "rules.code": 15000, "rules.simplified-code": 15000, "frame-context": 350, "junk-differential": 350,
                     "simplified-image": 40000, "na-mask": 80000, "shape": 130, "alphabet": 130, "ks.input": 350},
           "thorough": {"rules.code": 400000, "rules.simplified-code": 400000, "frame-context": 9000,
                        "junk-differential": 9000, "simplified-image": 1000000, "na-mask": 2000000, "shape": 4000,
@@ -146,6 +160,44 @@ def gen_cases(tier, seed):
             d["group"] = "asan"
             d["n_frames"] = min(d["n_frames"], 4)
             yield d
+    yield from _wide_cases(tier, seed)
+
+
+# ----- widening round: input classes the stream above never produces (ids >= 10**6; the stream above is unchanged) -----
+W_SOURCES = ["1bpi.pdb", "designed", "2EQQ.pdb", "1vii.pdb", "synthetic", "designed", "1am7_protein.pdb", "4OH9.pdb",
+             "aaqaa-wat.pdb", "designed", "ala_ala_ala.pdb", "native.pdb", "tip3p_300K_1ATM.pdb", "2koc.pdb", "imatinib.pdb",
+             "alanine-dipeptide-explicit.pdb", "GG-tip4pew.pdb", "designed", "1vii_sustiva_water.pdb", "bpti.pdb", "synthetic"]
+W_LONG = ["designed", "2EQQ.pdb", "1vii.pdb", "synthetic", "ala_ala_ala.pdb", "1bpi.pdb", "designed", "frame0.h5"]
+W_LARGE = ["4ZUO.pdb", "1ncw.pdb.gz", "3nch.pdb.gz"]
+NONSTANDARD = ["DAL", "MSE", "HYP", "CYX", "HID", "SEP", "UNK", "PRO", "ALA"]
+
+
+def _wide_cases(tier, seed):
+    quick = tier == "quick"
+    n = 300 if quick else 3000
+    for j in range(n):
+        rng = common.rng_for("C15wide", seed, j)
+        cls = "long" if j % 8 == 0 else ("large" if j % (100 if quick else 50) == 7 else "general")
+        if cls == "long":
+            src, nf = W_LONG[(j // 8) % len(W_LONG)], int(rng.choice([64, 100, 101, 129, 101, 257]))
+        elif cls == "large":
+            src, nf = W_LARGE[(j // 50) % (2 if quick else 3)], int(rng.integers(1, 3))
+        else:
+            src, nf = W_SOURCES[j % len(W_SOURCES)], int(rng.choice([1, 1, 2, 3, 5, 8, 12]))
+        w = dict(cls=cls, late_k=int(rng.integers(1, 4)) if (cls == "long" and rng.random() < 0.7) else 0,
+                 many_cuts=bool(rng.random() < 0.3), reseq=str(rng.choice(["keep", "keep", "duplicate", "scrambled", "insertion-like"])),
+                 rename=bool(rng.random() < 0.35), perm=bool(rng.random() < 0.4),
+                 cell=str(rng.choice(["none", "none", "cubic", "triclinic"])), positional=bool(rng.random() < 0.3),
+                 simp_type=str(rng.choice(["bool", "bool", "np.bool_", "int"])),
+                 derived=str(rng.choice(["none", "none", "slice", "slice-nocopy", "stride", "stride-nocopy", "fancy", "join", "xyz64", "vectors"])))
+        c = dict(i=10 ** 6 + j, seed=common.case_seed(seed, "C15w", j), src=src, tier=tier, n_frames=nf,
+                 noise=float(rng.choice(NOISES)), scale=float(rng.choice([1.0, 1.0, 0.95, 1.05])),
+                 unfold=bool(rng.random() < 0.25) and cls != "large", stack=False, window=bool(rng.random() < 0.12) and cls == "general",
+                 edit=str(rng.choice(["none", "none", "delete", "cut", "insert", "mixed"])), w=w)
+        if src == "designed":
+            c.update(noise=float(rng.choice([0.0, 0.0, 0.002])), scale=1.0, unfold=False, window=False,
+                     edit=str(rng.choice(["none", "none", "cut", "delete", "mixed"])))
+        yield c
 
 
 # ------------------------------------------------------------------------------------------------------ sources
@@ -445,11 +497,21 @@ def design_layout(rng, n, bonds):
     return X
 
 
-def _designed(rng, n_frames):
+def _designed(rng, n_frames, distinct=None):
     import mdtraj as md
     from mdtraj.core import element as elem
     n = int(rng.choice([12, 20, 30, 40, 40, 50, 60]))
     frames, recipes = [], []
+    if distinct is not None and n_frames > distinct:
+        # long trajectories (widening round): `distinct` different patterns, each frame shows one of them
+        base, recipes = [], []
+        for f in range(distinct):
+            bonds, recipe = design_pattern(rng, n)
+            base.append(design_layout(rng, n, bonds).reshape(n * 4, 3))
+            recipes.append(recipe)
+        pick = rng.integers(0, distinct, n_frames)
+        frames = [base[k] for k in pick]
+        n_frames = 0
     for f in range(n_frames):
         bonds, recipe = design_pattern(rng, n)
         if rng.random() < 0.5:
@@ -524,6 +586,41 @@ def rebuild(t, drop_atoms=(), cuts=(), inserts=None, rng=None):
     return md.Trajectory(xyz, top)
 
 
+def restyle(t, rng, w):
+    """widened classes, through the public topology API: residues renamed (non-standard names, to/from PRO), residue
+    numbers duplicated / scrambled / with repeated numbers as insertion codes leave them, the atoms of a residue listed
+    in another order (residues stay contiguous blocks), a new chain before many residues"""
+    import mdtraj as md
+    top = md.Topology()
+    order = []
+    nres = t.n_residues
+    cuts = set(int(x) for x in rng.integers(0, max(1, nres), int(rng.integers(4, 13)))) if w["many_cuts"] else set()
+    seq0 = int(rng.integers(-5, 900))
+    chain, last = None, None
+    for res in t.topology.residues:
+        if chain is None or res.chain.index != last or res.index in cuts:
+            chain = top.add_chain()
+            last = res.chain.index
+        name = res.name
+        if w["rename"] and rng.random() < 0.25:
+            name = str(rng.choice(NONSTANDARD))
+        seq = res.resSeq
+        if w["reseq"] == "duplicate":
+            seq = seq0
+        elif w["reseq"] == "scrambled":
+            seq = int(rng.integers(-50, 5000))
+        elif w["reseq"] == "insertion-like":  # 52, 52, 52, 53 ...: what 52A 52B leave behind
+            seq = seq0 + res.index // 3
+        nr = top.add_residue(name, chain, resSeq=seq, segment_id=res.segment_id)
+        atoms = list(res.atoms)
+        if w["perm"] and rng.random() < 0.6:
+            atoms = [atoms[k] for k in rng.permutation(len(atoms))]
+        for a in atoms:
+            top.add_atom(a.name, a.element, nr)
+            order.append(a.index)
+    return md.Trajectory(t.xyz[:, order].copy(), top)
+
+
 def facts(top):
     """what this module reads from the topology, by atom names only"""
     comp, chain, idx = [], [], []
@@ -547,14 +644,16 @@ def _build(case):
     if case["src"] == "synthetic":
         t, label = _synthetic(rng, nf)
     elif case["src"] == "designed":
-        t, recipes = _designed(rng, nf)
+        t, recipes = _designed(rng, nf, distinct=12 if (case.get("w") or {}).get("cls") == "long" else None)
     else:
         s = _load(case["src"])
         fi = rng.integers(0, s.n_frames, nf)
         if s.n_frames > 1 and rng.random() < 0.5:
             fi = np.arange(nf) % s.n_frames
         t = md.Trajectory(s.xyz[fi].copy(), s.topology)
-        if t.n_residues > BIG:
+        if (case.get("w") or {}).get("cls") == "large":
+            pass  # widened: the whole multi-chain crystal structure (1000-2500 residues), 1-2 frames
+        elif t.n_residues > BIG:
             # keep a few chains of the big multi-chain systems
             nprot = {}
             for r in t.topology.residues:
@@ -588,6 +687,10 @@ def _build(case):
         ln = int(rng.choice([1, 2, 3, 4, 5, 6, 7, 9, 12, 20]))
         a = int(rng.integers(0, max(1, t.n_residues - ln)))
         t = t.atom_slice([x.index for x in t.topology.atoms if a <= x.residue.index < a + ln])
+    w = case.get("w")
+    if w and w["cls"] == "long" and t.n_residues > 70:
+        a = int(rng.integers(0, t.n_residues - 60))
+        t = t.atom_slice([x.index for x in t.topology.atoms if a <= x.residue.index < a + 60])
     comp, chain, idx = facts(t.topology)
     edits = []
     if case["edit"] != "none" and t.n_residues > 0:
@@ -646,7 +749,34 @@ def _build(case):
     if case["noise"] > 0:
         sig = rng.choice([case["noise"], case["noise"], case["noise"] / 2, 0.0], size=t.n_frames)
         xyz = xyz + rng.normal(size=xyz.shape) * sig[:, None, None]
+    if w and w["late_k"]:
+        # widened: a long trajectory whose first frames are blown up by a factor 3 (no backbone H-bond survives, bends
+        # do: kappa is scale invariant); the structure appears only in the last k frames
+        k = w["late_k"]
+        n0 = max(0, xyz.shape[0] - k)
+        c = xyz[:n0].mean(axis=1, keepdims=True)
+        xyz[:n0] = (xyz[:n0] - c) * 3.0 + c
+        edits.append("late")
     t = md.Trajectory(xyz.astype(np.float32), t.topology)
+    if w:
+        if t.n_residues:
+            t = restyle(t, rng, w)
+            comp, chain, idx = facts(t.topology)
+        for e_, on in (("many-chains", w["many_cuts"]), ("resSeq-" + w["reseq"], w["reseq"] != "keep"), ("residues-renamed", w["rename"]),
+                       ("atoms-reordered-within-residues", w["perm"])):
+            if on:
+                edits.append(e_)
+        if w["cell"] != "none":
+            # widened: the trajectory carries a unit cell (the assignment is not periodic: nothing may change)
+            L, A = common.random_cell(rng, w["cell"], lo=0.5, hi=4.0)
+            t.unitcell_lengths = np.tile(L, (t.n_frames, 1)).astype(np.float32)
+            t.unitcell_angles = np.tile(A, (t.n_frames, 1)).astype(np.float32)
+            edits.append("unit-cell:" + w["cell"])
+        if w.get("derived", "none") != "none":
+            # widened class: the trajectory is obtained the way users obtain one (cut out of / strided from a longer
+            # one, with or without copying, joined from pieces, float64 coordinates assigned, cell as box vectors)
+            t = common.derive_traj(t, w["derived"], common.rng_for("C15derive", case["seed"]))
+            edits.append("obtained-by:" + w["derived"])
     return t, comp, chain, idx, label, edits, recipes, rng
 
 
@@ -750,8 +880,21 @@ def run_case(case, ctx):
     if nres == 0:
         ctx.skip("rules.code", "no residues")
         return
-    full = md.compute_dssp(t, simplified=False)
-    simp = md.compute_dssp(t, simplified=True)
+    w = case.get("w")
+    if w:
+        # widened: the flag given positionally / as numpy bool / as int, and the documented default (simplified=True)
+        F_, T_ = {"bool": (False, True), "np.bool_": (np.bool_(False), np.bool_(True)), "int": (0, 1)}[w["simp_type"]]
+        ctx.observe("simplified given as", w["simp_type"] + ("/positional" if w["positional"] else "/keyword"))
+        ctx.observe("class", w["cls"])
+        ctx.observe("n_residues", "<=60" if nres <= 60 else ("<=400" if nres <= 400 else ">400"))
+        full = md.compute_dssp(t, F_) if w["positional"] else md.compute_dssp(t, simplified=F_)
+        simp = md.compute_dssp(t, T_) if w["positional"] else md.compute_dssp(t, simplified=T_)
+        dflt = md.compute_dssp(t)
+        ctx.check(getattr(dflt, "shape", None) == getattr(simp, "shape", None) and bool(np.all(dflt == simp)), "default-is-simplified",
+                  "compute_dssp:default-differs-from-simplified=True", "compute_dssp(traj) differs from compute_dssp(traj, simplified=True)")
+    else:
+        full = md.compute_dssp(t, simplified=False)
+        simp = md.compute_dssp(t, simplified=True)
     ks = md.kabsch_sander(t)
 
     # ---- shape / alphabet / NA / image ---------------------------------------------------------------------------
@@ -925,3 +1068,44 @@ def run_case(case, ctx):
             continue
         ctx.check(jf[k] == rows_f[f] and js[k] == rows_s[f], "junk-differential", "compute_dssp:junk-differential",
                   f"frame {f} embedded between junk frames gives a different assignment", frame=f, source=label)
+
+    # ---- state on the Topology object across calls (widening round) ------------------------------------------------
+    if w and nres:
+        # compute_dssp / kabsch_sander have run on this Topology object above; it is now edited IN PLACE through public
+        # attributes / the public API and the next call on the same object must equal the call on a freshly built equal
+        # topology (what a fresh topology gives is judged by the monitors above)
+        from mdtraj.core import element as elem
+        top = t.topology
+        residues = list(top.residues)
+        xyz = t.xyz.copy()
+        edit = str(rng.choice(["residue<->PRO", "backbone-atom-renamed", "insert_atom", "atom-renamed-to-backbone-name"]))
+        r = residues[int(rng.integers(len(residues)))]
+        if edit == "residue<->PRO":
+            r.name = "ALA" if r.name == "PRO" else "PRO"
+        elif edit == "backbone-atom-renamed":
+            bb = [a for a in top.atoms if a.name in ("N", "CA", "C", "O")]
+            if bb:
+                a = bb[int(rng.integers(len(bb)))]
+                a.name = a.name + "X"           # the residue becomes incomplete
+        elif edit == "atom-renamed-to-backbone-name":
+            inc = [q for q in residues if not all(any(a.name == nm for a in q.atoms) for nm in ("N", "CA", "C", "O")) and q.n_atoms]
+            q = inc[int(rng.integers(len(inc)))] if inc else r
+            have = set(a.name for a in q.atoms)
+            free = [a for a in q.atoms if a.name not in ("N", "CA", "C", "O")]
+            for nm in ("N", "CA", "C", "O"):
+                if nm not in have and free:
+                    free.pop().name = nm        # towards a complete residue
+        else:
+            first = r.atom(0).index if r.n_atoms else 0
+            top.insert_atom("XI", elem.carbon, r, index=first, rindex=0)
+            xyz = np.insert(xyz, first, xyz[:, min(first, xyz.shape[1] - 1)] + np.float32(0.13), axis=1)
+        ctx.observe("in-place topology edit between calls", edit)
+        t_same = md.Trajectory(xyz.copy(), top)
+        t_new = md.Trajectory(xyz.copy(), common.rebuild_topology(top))
+        for simp_ in (False, True):
+            a = md.compute_dssp(t_same, simplified=simp_)
+            b = md.compute_dssp(t_new, simplified=simp_)
+            ctx.check(a.shape == b.shape and bool(np.all(a == b)), "history.in-place-edit",
+                      "compute_dssp:result-after-in-place-topology-edit-differs-from-fresh-topology",
+                      f"compute_dssp(simplified={simp_}) called again after an in-place edit of the Topology ({edit}) differs from the "
+                      "call on a freshly built equal topology", edit=edit)
